@@ -44,6 +44,18 @@ ILL = [
     ("pd|pp 1e4,1e3/0.02", [(1, [1e4]), (2, [1e3])], [(1, [0.02]), (1, [0.02])]),
     ("pp|pp 1e4/0.02", [(1, [1e4]), (1, [1e4])], [(1, [0.02]), (1, [0.02])]),
 ]
+# four-centre quartets: two heavy atoms with contracted core shells, polarisation functions on two neighbours. The two
+# pairs of an arrangement then need DIFFERENT in-pair orders and a bra/ket exchange at the same time, so that a
+# heuristic taken before and applied after the exchange (or vice versa) shows. (name, bra, ket, centres t0 t1 d0 d1)
+_CORE6 = [1.0e5, 1.0e4, 1.0e3, 1.0e2, 1.0e1, 1.0]
+ILL4 = [
+    ("pd|fp contracted core p, four centres", [(1, _CORE6), (1, [1.2e5, 1.22e4, 1.24e3, 126.0, 12.8, 1.3])], [(2, [0.24]), (3, [0.12])],
+     [[0.0, 0.0, 0.0], [0.2, -0.1, 0.3], [0.0, 1.65, 1.05], [1.8, -0.45, 0.75]]),
+    ("sd|fs contracted core s, four centres", [(0, _CORE6), (0, [8.0e4, 9.0e3, 1.1e3, 140.0, 17.0, 2.1])], [(2, [0.2]), (3, [0.15])],
+     [[0.0, 0.0, 0.0], [-0.3, 0.2, 0.1], [1.4, 0.9, -0.6], [-0.7, 1.9, 0.8]]),
+    ("pf|dp contracted core p, diffuse pair 3 bohr apart", [(1, _CORE6), (1, _CORE6)], [(3, [0.2]), (2, [0.3])],
+     [[0.0, 0.0, 0.0], [2.6, 0.4, -0.3], [0.5, 2.2, 0.9], [2.0, -1.8, 1.1]]),
+]
 
 
 def amp(bra, ket):
@@ -118,6 +130,11 @@ def _mk(l, exps, rng, center):
     K = len(exps)
     k = [[1.0] for _ in range(K)] if K == 1 else [[float(0.3 + rng.random())] for _ in range(K)]
     return {"l": l, "c": [float(v) for v in center], "e": [float(x) for x in exps], "k": k, "t": "c"}
+
+
+def _rev(s):
+    """the same shell with its primitives listed in the opposite order (diffuse first)"""
+    return dict(s, e=list(s["e"])[::-1], k=[list(r) for r in s["k"]][::-1])
 
 
 def gen_cases(tier, seed):
@@ -234,6 +251,21 @@ def gen_cases(tier, seed):
                                 ("(td|td)", [t[0], d[0], t[1], d[1]]), ("(td|dt)", [t[0], d[0], d[1], t[1]]),
                                 ("(dt|td)", [d[0], t[0], t[1], d[1]]), ("(dt|dt)", [d[0], t[0], d[1], t[1]])):
             cases.append({"kind": "kernel", "shells": [dict(s) for s in order], "classes": ["ill:" + name, "arr:" + arr_name], "cost": 400})
+        if any(len(s_["e"]) > 1 for s_ in t + d):
+            # the same contracted shells with their primitives listed diffuse-to-tight
+            for arr_name, order in (("(tt|dd)", [t[0], t[1], d[0], d[1]]), ("(td|dt)", [t[0], d[0], d[1], t[1]])):
+                cases.append({"kind": "kernel", "shells": [_rev(s) for s in order], "classes": ["ill:" + name, "arr:" + arr_name, "primitives-reversed"], "cost": 400})
+    rng = bases.rng_for("C04", "ill4")
+    for name, bra, ket, cen4 in ILL4:
+        t = [_mk(l, e, rng, c_) for (l, e), c_ in zip(bra, cen4[:2])]
+        d = [_mk(l, e, rng, c_) for (l, e), c_ in zip(ket, cen4[2:])]
+        for arr_name, order in (("(tt|dd)", [t[0], t[1], d[0], d[1]]), ("(dd|tt)", [d[0], d[1], t[0], t[1]]),
+                                ("(td|td)", [t[0], d[0], t[1], d[1]]), ("(td|dt)", [t[0], d[0], d[1], t[1]]),
+                                ("(dt|td)", [d[0], t[0], t[1], d[1]]), ("(dt|dt)", [d[0], t[0], d[1], t[1]]),
+                                ("(td'|dt')", [t[1], d[0], d[1], t[0]]), ("(d't|t'd)", [d[1], t[0], t[1], d[0]])):
+            cases.append({"kind": "kernel", "shells": [dict(s) for s in order], "classes": ["ill:" + name, "arr:" + arr_name], "cost": 1500})
+        for arr_name, order in (("(tt|dd)", [t[0], t[1], d[0], d[1]]), ("(td|dt)", [t[0], d[0], d[1], t[1]])):
+            cases.append({"kind": "kernel", "shells": [_rev(s) for s in order], "classes": ["ill:" + name, "arr:" + arr_name, "primitives-reversed"], "cost": 1500})
     # whole-basis calls
     nw = 16 if tier == "quick" else 240
     for i in range(nw):
@@ -414,7 +446,7 @@ def classify(case, v):
 def summarize(cases, results, counts, lists, tier):
     tup = {x for c in cases for x in c["classes"] if x.startswith("ls:")}
     b = lists.get("boys", [])
-    out = {"enumerated": {"angular-momentum 4-tuples 0..3": "%d of 256" % len(tup), "ill-conditioned quartets": "%d (x6 arrangements)" % len(ILL)},
+    out = {"enumerated": {"angular-momentum 4-tuples 0..3": "%d of 256" % len(tup), "ill-conditioned quartets": "%d (x6 arrangements) + %d four-centre (x8)" % (len(ILL), len(ILL4))},
            "bound": "1e-6 * sqrt((ab|ab)(cd|cd))"}
     worst = sorted(((r.get("errs", {}).get("eri_kernel", 0.0), r["cid"], r.get("info", {})) for r in results), key=lambda x: -x[0])[:5]
     out["worst_kernel_cases"] = [{"err": w[0], "cid": w[1], **w[2]} for w in worst]
